@@ -476,3 +476,81 @@ func TestC19FailReusedSet(t *testing.T) {
 		}
 	})
 }
+
+// TestC19FailMidSync: `kubectl-eds canary fail` (the real command body) lands inside a sync of the canary replica
+// set, after the controller has read the object and right before it writes the status. The command reported success:
+// the controller must obey it (rollback) - its own status write may not erase what the command wrote.
+func TestC19FailMidSync(t *testing.T) {
+	rec := evid.New("TestC19FailMidSync", "C19", "A active, B canary running for a generated number of rounds; the real `canary fail` command runs between the read and the status write of a sync of the canary replica set (also: of the active one, as a control); oracle: the command succeeds and within eight rounds status.canary is cleared, the active set is unchanged and spec.template is the active template again; non-trivial = the command ran inside a sync of the canary set; distinct by round counts and target")
+	t.Cleanup(func() {
+		if !t.Failed() {
+			rec.Done()
+		}
+	})
+	rapid.Check(t, func(rt *rapid.T) {
+		cfg := WorldCfg{Property: "C19", MinNodes: 3, MaxNodes: 4, Letters: "A", Affinity: 2, PlainNodes: true,
+			Strategy: gen.StrategyOpts{Canary: 2, NoPercentRepl: true}, Monitors: mon.Of("no-panic", "promotion-rule"), Weights: map[string]int{"round": 1}}
+		w := newWorld(rt, rec, cfg)
+		k := w.EDS[0]
+		n := rapid.IntRange(4, 6).Draw(rt, "deployA")
+		for i := 0; i < n; i++ {
+			w.fairRound("deployA")
+		}
+		activeBefore := w.C.EDS(k.Namespace, k.Name).Status.ActiveReplicaSet
+		w.editTemplate(k, 'B')
+		n = rapid.IntRange(3, 5).Draw(rt, "canaryB")
+		for i := 0; i < n; i++ {
+			w.fairRound("canaryB")
+		}
+		e := w.C.EDS(k.Namespace, k.Name)
+		if e.Status.Canary == nil || e.Status.ActiveReplicaSet != activeBefore || activeBefore == "" {
+			rec.Case(false, w.fp(), "no-canary")
+			return
+		}
+		crs := e.Status.Canary.ReplicaSet
+		// an auto-mode canary may be promoted by time while we wait: keep it paused? no - manual pause would change
+		// the story; instead the command runs in the very next round
+		target := rapid.SampledFrom([]string{"canary", "canary", "active"}).Draw(rt, "duringSyncOf")
+		during := crs
+		if target == "active" {
+			during = activeBefore
+		}
+		ran, cmdErr := false, error(nil)
+		w.C.Faults = func(call *sim.Call) sim.FaultKind {
+			if !ran && call.Actor == sim.ActorERS && (call.Verb == "status-update" || call.Verb == "status-patch") && call.Name == during {
+				ran = true
+				w.C.Tracef("(inside the sync of %s, before its status write)", during)
+				_, cmdErr = c19Run(w.C, "canary-fail", k.Namespace, k.Name)
+				w.C.Tracef("command canary-fail -> err=%v", cmdErr)
+			}
+			return sim.FaultNone
+		}
+		w.fairRound("command lands inside a sync")
+		w.C.Faults = nil
+		if !ran || cmdErr != nil {
+			rec.Case(false, w.fp(), fmt.Sprintf("command-did-not-run-or-refused(ran=%v err=%v)", ran, cmdErr))
+			return
+		}
+		for i := 0; i < 8; i++ {
+			w.fairRound("after canary fail")
+		}
+		rec.Case(target == "canary", w.fp(), "during-sync-of-"+target)
+		if target == "canary" && rec.WantSample() {
+			rec.Sample(w.sampleTrace(40))
+		}
+		cur := w.C.EDS(k.Namespace, k.Name)
+		activeTpl := w.C.ERS(k.Namespace, activeBefore)
+		var vs []mon.V
+		switch {
+		case cur.Status.ActiveReplicaSet != activeBefore:
+			vs = append(vs, mon.V{Property: "C19", Monitor: "interpretation", Sig: "C19/interpretation/fail-changed-active/mid-sync", Detail: fmt.Sprintf("after canary fail (run inside a sync of %s) status.activeReplicaSet went from %q to %q", during, activeBefore, cur.Status.ActiveReplicaSet)})
+		case cur.Status.Canary != nil && cur.Status.Canary.ReplicaSet == crs:
+			vs = append(vs, mon.V{Property: "C19", Monitor: "interpretation", Sig: "C19/interpretation/fail-no-rollback/mid-sync", Detail: fmt.Sprintf("eight rounds after canary fail (run inside a sync of %s, reported success) status.canary is still %+v", during, *cur.Status.Canary)})
+		case activeTpl != nil && !apiequality.Semantic.DeepEqual(cur.Spec.Template, activeTpl.Spec.Template):
+			vs = append(vs, mon.V{Property: "C19", Monitor: "interpretation", Sig: "C19/interpretation/fail-template-not-restored/mid-sync", Detail: "eight rounds after canary fail spec.template is not the active replica set's template"})
+		}
+		if len(vs) > 0 {
+			w.fail(vs)
+		}
+	})
+}
